@@ -11,6 +11,9 @@ LOCAL_CORE = [
     '"\\é"'.encode(), "иван".encode(), "用户".encode(), b"\xff", b"a\xc3", b"\xc0\x80", b"\xed\xa0\x80", "😀".encode(),
     b"a" * 63, b"a" * 64, b"a" * 65, b'"' + b"a" * 62 + b'"', b'"' + b"a" * 63 + b'"', (b"a." * 32)[:-1], b"a." * 32 + b"a",
     b"a" * 64 + b".", b" a", b"a ", b"\ta", b"a\r\n", b'"a"\r\n', b"a\x7f", b"a\x80",
+    # several folds in one quoted word (each CR is followed by LF and a blank), folds next to blanks and escapes
+    b'"\r\n \r\n "', b'"a\r\n \r\n b"', b'"\r\n\t\r\n\t"', b'"\r\n  \r\n a"', b'"a \r\n \r\n \r\n b"', b'"\\\r\n "', b'"\r\n \\a\r\n "',
+    b'"\r\n \r\n"', b'"\r\n \r"', b'"\r\n \n "',
     # ill-formed UTF-8 whose *decoded value* would be harmless or a control: overlongs, boundaries, > U+10FFFF
     b"\xc1\xbf", b"a\xc0\xafb", b"\xe0\x9f\xbf", b"\xf0\x8f\xbf\xbf", b"\xf4\x90\x80\x80", b'"\xc1\xbf"', b"\xc2\x7f", b"\xdf\xc0",
     b"\xef\xbf\xbf", b"\xf4\x8f\xbf\xbf", b"\xc2\x80", b"\xe0\xa0\x80", b"\xf0\x90\x80\x80",
@@ -107,7 +110,9 @@ def address_corpus(tier, seed, model, cross=True):
     out.update([b"@", b"@@", b"a@", b"@a.bc", b"a@@b.cd", b"@@a.bc", b"a@b@c.de", b'"a@b"@c.de', b"a@b.cd@", b"a", b"a.bc"])
     # local-part length boundary in several shapes
     for n in range(60, 70):
-        for l in (b"a" * n, b'"' + b"a" * max(0, n - 2) + b'"', (b"ab." * n)[:n - 1] + b"a", "é".encode() * (n // 2) + b"a" * (n % 2)):
+        qp = b'"' + (b"\\a" * n)[:(n - 2) & ~1] + (b"b" if n % 2 else b"") + b'"'        # quoted-pairs: octets, not characters, count
+        for l in (b"a" * n, b'"' + b"a" * max(0, n - 2) + b'"', (b"ab." * n)[:n - 1] + b"a", "é".encode() * (n // 2) + b"a" * (n % 2), qp,
+                  b'"' + b"\\\"" * ((n - 2) // 2) + b'"'):
             for d in (b"a.bc", b"[1.2.3.4]", "почта.рф".encode()):
                 out.add(l + b"@" + d)
     # every byte value at every position of a few accepted addresses (substitution)
